@@ -184,7 +184,12 @@ func c08Child() {
 		opts[m.Name] = m.options(sample)
 	}
 	opts["mapenv+opt"] = []expr.Option{expr.Env(menv), expr.Optimize(true)}
-	modeNames := []string{"untyped", "typed", "typed+opt", "mapenv+opt"}
+	// the SAME operator given in two options, the first from a caller-owned slice with spare capacity: every Compile
+	// call builds its own candidate list (it must not be assembled inside the caller's backing array)
+	opList := make([]string, 1, 8)
+	opList[0] = "Add"
+	opts["typed+ops-twice"] = []expr.Option{expr.Env(sample), expr.Operator("+", opList...), expr.Operator("+", "Concat"), expr.Operator("-", opList...), expr.Operator("-", "Add")}
+	modeNames := []string{"untyped", "typed", "typed+opt", "mapenv+opt", "typed+ops-twice"}
 
 	// everything shared is snapshotted before the first use
 	envSnap := make([]string, len(envs))
